@@ -172,5 +172,229 @@ pub fn gen(tier: &str, seed: u64) -> Vec<String> {
         let h = consistent_history(&mut r, &keys, n_ev, gaps, 300);
         lines.push(mk_kline("KAN", false, &cfg, &with_repeats(&mut r, h, 1, 3)));
     }
+    // (3) KOT: the key-output table itself, for configurations WITH chords v2 (the kanata-level model
+    // answers `unsupported` there): the model rebuilds the table from the serialised layers and the
+    // serialised chords-v2 mapping and it is compared row by row with the table of the real parser
+    let n3 = if thorough { 6000 } else { 700 };
+    for _ in 0..n3 {
+        lines.push(format!("KOT 0 {} HIST 0", crate::lay::hex(&gen_kot_cfg(&mut r))));
+    }
     lines
+}
+
+// ---------------------------------------------------------------- KOT: key-output table with chords v2
+
+/// A chord action: anything of the grammar but the two forms the parser refuses inside chords v2
+fn kot_chord_action(r: &mut Rng, ctx: &Ctx) -> String {
+    for _ in 0..10 {
+        let a = gen_action(r, ctx, 1, true);
+        let bad = a.replace('(', " ").replace(')', " ").split_whitespace().any(|t| t == "_" || t == "use-defsrc");
+        if !bad {
+            return a;
+        }
+    }
+    (*r.pick(&OUT_KEYS)).to_string()
+}
+
+/// 1-4 layers over 3-6 keys, 1-5 v2 chords with overlapping participants, each disabled on a random
+/// set of layers; one chord per line (the shrinker of the runner removes lines)
+pub fn gen_kot_cfg(r: &mut Rng) -> String {
+    let nkeys = r.range(3, 6) as usize;
+    let nlayers = r.range(1, 4) as usize;
+    let ctx = Ctx { nlayers, nvirt: 0, chord_groups: vec![], allow_waiting: true, allow_custom: true, latch_free: false };
+    let mut s = String::from("(defcfg concurrent-tap-hold yes");
+    if r.chance(1, 6) {
+        s.push_str(" process-unmapped-keys yes");
+    }
+    s.push_str(")\n(defsrc");
+    for k in &KEYS[..nkeys] {
+        s.push_str(&format!(" {k}"));
+    }
+    s.push_str(")\n");
+    for l in 0..nlayers {
+        s.push_str(&format!("(deflayer l{l}"));
+        for ki in 0..nkeys {
+            s.push(' ');
+            // half of the positions carry the plain key so that chord outputs stand out
+            if r.chance(1, 2) {
+                s.push_str(KEYS[ki]);
+            } else {
+                s.push_str(&gen_action(r, &ctx, 0, true));
+            }
+        }
+        s.push_str(")\n");
+    }
+    if r.chance(1, 3) {
+        s.push_str("(defoverrides");
+        for _ in 0..r.range(1, 3) {
+            let m = *r.pick(&["lsft", "lctl", "ralt"]);
+            let i = *r.pick(&["q", "w", "x", "y", "z", "1", "2"]);
+            let o = *r.pick(&["q", "w", "x", "y", "z", "1", "2", "3"]);
+            match r.below(3) {
+                0 => s.push_str(&format!(" ({m} {i}) ({o})")),
+                1 => s.push_str(&format!(" ({m} {i}) ({m} {o})")),
+                _ => s.push_str(&format!(" ({i}) ({m} {o})")),
+            }
+        }
+        s.push_str(")\n");
+    }
+    let nch = r.range(1, 5) as usize;
+    let mut sets: Vec<Vec<usize>> = vec![];
+    s.push_str("(defchordsv2\n");
+    for _ in 0..nch {
+        // participants: 2-3 distinct keys of defsrc (once in eight one more key outside defsrc)
+        let mut set: Vec<usize> = vec![];
+        for _ in 0..20 {
+            set.clear();
+            let n = if nkeys >= 3 && r.chance(1, 3) { 3 } else { 2 };
+            while set.len() < n {
+                let k = r.below(nkeys as u64) as usize;
+                if !set.contains(&k) {
+                    set.push(k);
+                }
+            }
+            set.sort();
+            if !sets.contains(&set) {
+                break;
+            }
+        }
+        if sets.contains(&set) {
+            continue;
+        }
+        sets.push(set.clone());
+        let mut names: Vec<&str> = set.iter().map(|k| KEYS[*k]).collect();
+        if r.chance(1, 8) {
+            names.push("m");
+        }
+        let mut dis: Vec<String> = vec![];
+        let all = r.chance(1, 10);
+        for l in 0..nlayers {
+            if all || r.chance(1, 3) {
+                dis.push(format!("l{l}"));
+            }
+        }
+        s.push_str(&format!(
+            "  ({}) {} {} {} ({})\n",
+            names.join(" "),
+            kot_chord_action(r, &ctx),
+            r.pick(&[20u32, 50, 200]),
+            r.pick(&["first-release", "all-released"]),
+            dis.join(" ")
+        ));
+    }
+    s.push_str(")\n");
+    s
+}
+
+/// canonical text of a key-output table: `TBL <layers> (L<i> (<key>=<out>,<out>…)*)*`, keys ascending
+fn kot_table_text(t: &kanata_parser::cfg::KeyOutputs) -> String {
+    let mut out = vec![format!("TBL {}", t.len())];
+    for (i, l) in t.iter().enumerate() {
+        out.push(format!("L{i}"));
+        let mut keys: Vec<u16> = l.keys().map(|k| u16::from(*k)).collect();
+        keys.sort();
+        for k in keys {
+            let row = &l[&kanata_parser::keys::OsCode::from_u16(k).unwrap()];
+            out.push(format!("{k}={}", row.iter().map(|o| u16::from(*o).to_string()).collect::<Vec<_>>().join(",")));
+        }
+    }
+    out.join(" ")
+}
+
+fn kot_cfg_text(line: &str) -> String {
+    let t: Vec<&str> = line.split_whitespace().collect();
+    crate::lay::unhex(t[2])
+}
+
+fn kot_overrides(c: &kanata_parser::cfg::Cfg, text: &str) -> Option<Vec<(Vec<u16>, Vec<u16>)>> {
+    let has_overrides = !format!("{:?}", c.overrides).contains("overrides_by_osc: {}");
+    if has_overrides {
+        crate::kan::read_overrides(text)
+    } else {
+        Some(vec![])
+    }
+}
+
+/// the table the REAL parser built
+pub fn eval_kot(line: &str) -> String {
+    let text = kot_cfg_text(line);
+    match crate::lay::parse_cfg(&text) {
+        Err(_) => "rej".into(),
+        Ok(c) => {
+            if kot_overrides(&c, &text).is_none() {
+                return "unsupported overrides".into();
+            }
+            kot_table_text(&c.key_outputs)
+        }
+    }
+}
+
+/// `KOTX 0 <layers, defsrc, CHV2 mapping as in LAYX> CUS … KO … OVR … HIST 0`: what the real parser
+/// produced - the actions of every layer for the key positions that matter (mapped keys, chord
+/// participants, every key that has a row in the real table), the chords-v2 mapping, the custom-action
+/// lists (only the key lists of unmod / unshift matter here) and the REAL table
+pub fn expand_kot(line: &str) -> String {
+    use kanata_parser::custom_action::CustomAction;
+    use kanata_parser::keys::OsCode;
+    let text = kot_cfg_text(line);
+    let c = match crate::lay::parse_cfg(&text) {
+        Err(_) => return "KOTX 0 REJECT HIST 0".into(),
+        Ok(c) => c,
+    };
+    let ovr = match kot_overrides(&c, &text) {
+        None => return "KOTX 0 UNSUPPORTED overrides HIST 0".into(),
+        Some(v) => v,
+    };
+    // key positions beyond the mapped keys enter the universe through a pseudo history
+    let mut extra: Vec<u16> = vec![];
+    if let Some(ch) = c.layout.b().chords_v2.as_ref() {
+        extra.extend(ch.chords().mapping.keys().copied());
+    }
+    for l in c.key_outputs.iter() {
+        extra.extend(l.keys().map(|k| u16::from(*k)));
+    }
+    extra.sort();
+    extra.dedup();
+    let hist: Vec<HEv> = extra.iter().map(|y| HEv::Press(0, *y)).collect();
+    let (lay, ser) = crate::lay::serialise_cfg(&c, &hist);
+    let mut out = vec![lay];
+    out.push(format!("CUS {}", ser.customs.len()));
+    for (ptr, len) in ser.customs.iter() {
+        let slice: &[&CustomAction] = unsafe { std::slice::from_raw_parts(*ptr as *const &CustomAction, *len) };
+        out.push(len.to_string());
+        for a in slice {
+            out.push(match a {
+                CustomAction::Unmodded { keys, mods } => {
+                    format!("um {} {} {}", mods.bits(), keys.len(), keys.iter().map(|k| (*k as u16).to_string()).collect::<Vec<_>>().join(" "))
+                }
+                CustomAction::Unshifted { keys } => {
+                    format!("us {} {}", keys.len(), keys.iter().map(|k| (*k as u16).to_string()).collect::<Vec<_>>().join(" "))
+                }
+                _ => "oth".into(),
+            });
+        }
+    }
+    out.push(format!("KO {}", c.key_outputs.len()));
+    for l in c.key_outputs.iter() {
+        let mut keys: Vec<u16> = l.keys().map(|k| u16::from(*k)).collect();
+        keys.sort();
+        out.push(keys.len().to_string());
+        for k in keys {
+            let row = &l[&OsCode::from_u16(k).unwrap()];
+            out.push(format!("{k} {} {}", row.len(), row.iter().map(|o| u16::from(*o).to_string()).collect::<Vec<_>>().join(" ")));
+        }
+    }
+    let mut t = format!("OVR {}", ovr.len());
+    for (i, o) in &ovr {
+        t.push_str(&format!(
+            " I {} {} O {} {}",
+            i.len(),
+            i.iter().map(|x| x.to_string()).collect::<Vec<_>>().join(" "),
+            o.len(),
+            o.iter().map(|x| x.to_string()).collect::<Vec<_>>().join(" ")
+        ));
+    }
+    out.push(t);
+    let joined = out.join(" ");
+    format!("KOTX 0 {} HIST 0", joined.split_whitespace().collect::<Vec<_>>().join(" "))
 }
